@@ -175,6 +175,9 @@ func ByFile(name, sigtype string) (*Signer, error) {
 func (s *Signer) Flags() *pflag.FlagSet {
 	if s.flags == nil {
 		s.flags = pflag.NewFlagSet(s.Name, pflag.ExitOnError)
+		// visit flags in definition order: a sorted set is sorted lazily on
+		// first use, which is a data race between concurrent requests
+		s.flags.SortFlags = false
 	}
 	return s.flags
 }
